@@ -10,6 +10,7 @@ import (
 	"fmt"
 	"reflect"
 	"strings"
+	"time"
 
 	"ebuverif/internal/h"
 	"ebuverif/vrt"
@@ -40,9 +41,27 @@ type shape struct {
 }
 
 // routes exercised for every shape
-var routes = []string{"stored-type", "replay-eventtype", "subscribe-with-replay", "subscribe-with-replay-live", "upcast-source", "upcast-target", "eventtype-rule", "after-upcast-replay-and-clear"}
+var routes = []string{"stored-type", "replay-eventtype", "subscribe-with-replay", "subscribe-with-replay-live", "upcast-source", "upcast-target", "eventtype-rule", "after-upcast-replay-and-clear", "forwarded-from-a-traced-bus"}
 
 var bg = context.Background()
+
+// passObs is an Observability that adds a value to every context it is given (like a tracer).
+type passObs struct{}
+
+type passKey struct{}
+
+func (passObs) OnPublishStart(ctx context.Context, et string, ev any) context.Context {
+	return context.WithValue(ctx, passKey{}, et)
+}
+func (passObs) OnPublishComplete(context.Context, string) {}
+func (passObs) OnHandlerStart(ctx context.Context, et string, async bool) context.Context {
+	return context.WithValue(ctx, passKey{}, "h:"+et)
+}
+func (passObs) OnHandlerComplete(context.Context, time.Duration, error) {}
+func (passObs) OnPersistStart(ctx context.Context, et string, pos int64) context.Context {
+	return context.WithValue(ctx, passKey{}, "p:"+et)
+}
+func (passObs) OnPersistComplete(context.Context, time.Duration, error) {}
 
 func storedTypes(ms *eventbus.MemoryStore) []string {
 	evs, _, _ := ms.Read(bg, eventbus.OffsetOldest, 0)
@@ -164,6 +183,28 @@ func mk[T any](name string, sample T, n func(T) int, setN func(int) T) shape {
 			eventbus.SubscribeWithReplay(bg, bus2, "same-bus", func(e T) { got = append(got, n(e)) })
 			if len(got) != 1 || got[0] != 1 {
 				bad("after ClearUpcasts, SubscribeWithReplay[T] on the same bus received %v, want [1]", got)
+			}
+		case "forwarded-from-a-traced-bus":
+			// A context-aware handler on another bus (one with observability, one with hooks
+			// and a store of its own) forwards by publishing T on this bus with the context it
+			// was given: the name T is persisted under here is T's, whatever that context has
+			// been through.
+			ms2 := eventbus.NewMemoryStore()
+			other := eventbus.New(eventbus.WithStore(ms2), eventbus.WithObservability(passObs{}),
+				eventbus.WithBeforePublishContext(func(context.Context, reflect.Type, any) {}))
+			target := eventbus.New(eventbus.WithStore(ms))
+			eventbus.SubscribeContext(other, func(ctx context.Context, o Old) { eventbus.PublishContext(target, ctx, setN(o.N)) })
+			eventbus.SubscribeContext(other, func(ctx context.Context, o Old) { eventbus.PublishContext(target, ctx, setN(o.N+1)) }, eventbus.Async())
+			eventbus.Publish(other, Old{N: 7})
+			other.Wait()
+			st := storedTypes(ms)
+			if len(st) != 3 || st[1] != want || st[2] != want {
+				bad("events forwarded from a handler of another (traced) bus with the context it was given are persisted under %v, EventType reports %q", st[1:], want)
+			}
+			var got []int
+			eventbus.SubscribeWithReplay(bg, eventbus.New(eventbus.WithStore(ms)), "fwd", func(e T) { got = append(got, n(e)) })
+			if len(got) != 3 {
+				bad("SubscribeWithReplay[T] selects %d of the 3 persisted events of its type (two of them forwarded from another bus)", len(got))
 			}
 		case "upcast-target":
 			// T is the target: an Old event upcast to T must be matched as T everywhere.
